@@ -260,7 +260,49 @@ func runClosures(raw json.RawMessage) (res *Result, err error) {
 			nset++
 		}
 	}
-	return &Result{Coq: coq, Observed: recs, Tags: tags, Nontrivial: nset >= 2}, nil
+	// read-only is about what a call may CHANGE, never about who answers: with
+	// the flag set every installed closure must still be the one that decides
+	invariant := ""
+	if !panicked {
+		func() {
+			defer func() {
+				if r := recover(); r != nil {
+					invariant = fmt.Sprintf("read-only probe panicked: %v", r)
+				}
+			}()
+			answers := func() string {
+				if in.Cond {
+					u, ue := c.Unmarshal()
+					ev, ee := c.Evaluate()
+					return fmt.Sprintf("valid:%v string:%q isequal:%v unmarshal:%v/%v evaluate:%v/%v", c.Valid() != nil, c.String(), c.IsEqual(other) != nil, u, ue != nil, ev, ee != nil)
+				}
+				u, ue := s.Unmarshal()
+				out := fmt.Sprintf("valid:%v string:%q isequal:%v unmarshal:%v/%v", s.Valid() != nil, s.String(), s.IsEqual(other) != nil, u, ue != nil)
+				if cfg, _ := stk.VerifDump(s)["cfg"].(map[string]any); cfg != nil {
+					if id, _ := cfg["maf"].(uintptr); id != 0 {
+						out += fmt.Sprintf(" marshal:%v", s.Marshal("probe") != nil)
+					}
+				}
+				return out
+			}
+			a1 := answers()
+			if in.Cond {
+				c.SetReadOnly(true)
+			} else {
+				s.SetReadOnly(true)
+			}
+			a2 := answers()
+			if in.Cond {
+				c.SetReadOnly(false)
+			} else {
+				s.SetReadOnly(false)
+			}
+			if a1 != a2 {
+				invariant = fmt.Sprintf("with the read-only flag set the closures no longer decide: %s / read-only: %s", a1, a2)
+			}
+		}()
+	}
+	return &Result{Coq: coq, Observed: recs, Tags: tags, Nontrivial: nset >= 2, Invariant: invariant}, nil
 }
 
 func genClosures(ctx *Ctx, emit func(any, string)) {
